@@ -27,7 +27,7 @@ Record mstate := mkM {
 
 Definition minit : mstate := mkM init None 0%N [].
 
-Inductive mres := RTooOld | RProp (f : fact) (v : N).
+Inductive mres := RTooOld | RPoolErr | RProp (f : fact) (v : N).
 
 (* makeNew (ops from getOperations) / preferEmpty (ops = []) *)
 Definition find_or_make (pk : key) (ops : oplist) (st : mstate) : mres * mstate :=
@@ -38,6 +38,14 @@ Definition find_or_make (pk : key) (ops : oplist) (st : mstate) : mres * mstate 
       let v := m_next st in
       (RProp f v,
        mkM (snd (set_proposal f v (m_pool st))) (m_last st) (N.succ (m_next st)) ((f, ops) :: m_content st))
+  end.
+
+(* the same with a pool whose SetProposal fails (leveldb write error, storage closed): makeProposal returns the error,
+   nothing is handed out and nothing is remembered; a pooled proposal is still found and returned *)
+Definition find_or_fail (pk : key) (st : mstate) : mres * mstate :=
+  match by_point pk (m_pool st) with
+  | Some (f, v) => (RProp f v, st)
+  | None => (RPoolErr, st)
   end.
 
 (* prev = identifier of the previousBlock argument *)
@@ -57,9 +65,16 @@ Definition prefer_empty (pk : key) (st : mstate) : mres * mstate :=
   | Some (m, _) => if fst pk <? m - 1 then (RTooOld, st) else find_or_make pk [] st
   end.
 
+Definition make_fail (pk : key) (st : mstate) : mres * mstate :=
+  match m_last st with
+  | None => find_or_fail pk st
+  | Some (m, _) => if fst pk <? m - 1 then (RTooOld, st) else find_or_fail pk st
+  end.
+
 Inductive mop :=
 | MMake (pk : key) (prev : N) (ops : oplist)      (* ops = what getOperations would return at that moment *)
 | MPreferEmpty (pk : key)
+| MCallFail (pk : key)                            (* a Make / PreferEmpty call during which the pool write fails *)
 | MSetLast (m : Z) (mh : N)                       (* the node saved a block *)
 | MClean.                                         (* TempPool.cleanProposals (periodic) *)
 
@@ -67,6 +82,7 @@ Definition mstep (st : mstate) (o : mop) : option (key * mres) * mstate :=
   match o with
   | MMake pk prev ops => let (r, st') := make pk prev ops st in (Some (pk, r), st')
   | MPreferEmpty pk => let (r, st') := prefer_empty pk st in (Some (pk, r), st')
+  | MCallFail pk => let (r, st') := make_fail pk st in (Some (pk, r), st')
   | MSetLast m mh => (None, mkM (m_pool st) (Some (m, mh)) (m_next st) (m_content st))
   | MClean => (None, mkM (snd (clean_proposals deep_proposal guard_literal (m_pool st))) (m_last st) (m_next st) (m_content st))
   end.
@@ -87,11 +103,12 @@ Definition good (ops : oplist) : Prop := NoDup (map fst ops) /\ NoDup (map snd o
 
 (* ---------------------------------------------------------------- correspondence *)
 
-Inductive obs := OTooOld | OProp (id : N) (ops : oplist).   (* id: order of first appearance of the fact; ops sorted *)
+Inductive obs := OTooOld | OPoolErr | OProp (id : N) (ops : oplist).   (* id: order of first appearance of the fact; ops sorted *)
 
 Inductive item :=
 | IMake (pk : key) (prev : N) (ops : oplist) (r : obs)
 | IPreferEmpty (pk : key) (r : obs)
+| ICallFail (pk : key) (r : obs)                  (* Make or PreferEmpty with the pool's SetProposal failing *)
 | ISetLast (m : Z) (mh : N)
 | IClean.
 
@@ -104,6 +121,7 @@ Definition sort_p (l : oplist) : oplist := fold_right insert_p [] l.
 Definition res_ok (r : mres) (st : mstate) (o : obs) : bool :=
   match r, o with
   | RTooOld, OTooOld => true
+  | RPoolErr, OPoolErr => true
   | RProp f v, OProp id ops =>
       N.eqb (snd f) id && N.eqb v id &&
       match content_of f st with Some c => list_eqb pair_eqb ops (sort_p c) | None => false end
@@ -114,6 +132,7 @@ Definition check_item (st : mstate) (i : item) : bool * mstate :=
   match i with
   | IMake pk prev ops r => let (x, st') := make pk prev ops st in (res_ok x st' r, st')
   | IPreferEmpty pk r => let (x, st') := prefer_empty pk st in (res_ok x st' r, st')
+  | ICallFail pk r => let (x, st') := make_fail pk st in (res_ok x st' r, st')
   | ISetLast m mh => (true, snd (mstep st (MSetLast m mh)))
   | IClean => (true, snd (mstep st MClean))
   end.
